@@ -850,7 +850,18 @@ pub fn daemonize() -> Result<()> {
     match env::var("SCCACHE_NO_DAEMON") {
         Ok(ref val) if val == "1" => {}
         _ => {
-            Daemonize::new().start().context("failed to daemonize")?;
+            // Keep the file mode creation mask we were started with (`Daemonize`
+            // would set 0o027): compilers run by the server create their outputs
+            // under it, and they must get the modes a direct compile gives them.
+            let mask = unsafe {
+                let mask = libc::umask(0);
+                libc::umask(mask);
+                mask
+            };
+            Daemonize::new()
+                .umask(mask as u32)
+                .start()
+                .context("failed to daemonize")?;
         }
     }
 
